@@ -31,10 +31,11 @@ def gen(tier, seed):
         dim = rnd.choice((1, 1, 2))
         base = {"U": fsl(U), "p": p, "kind": v["kind"], "mults": v["mults"], "scalar": dim == 1,
                 "P": pts_json(rand_points(rnd, n, dim))}
-        modes = ["same", "refined", "refined", "moved", "tiny", "other", "interval", "cross", "cross", "cross_other"]
+        modes = ["same", "refined", "refined", "moved", "tiny", "other", "interval", "cross", "cross", "cross_other",
+                 "line_vs_kink"]
         for mode in (modes if tier != "quick" else rnd.sample(modes, 4)):
             ins = rnd.sample(mids, min(len(mids), rnd.randint(0, 2)))
-            elev = rnd.choice((0, 0, 1)) if n <= 5 else 0
+            elev = rnd.choice((0, 0, 1, 2, 3) if n <= 3 else (0, 0, 1)) if n <= 5 else 0
             if mode in ("refined", "moved", "tiny") and not ins and not elev:
                 ins = mids[:1]
             ins2 = []
@@ -63,6 +64,11 @@ def impl(case):
         B = Curve([u + 1 for u in nums(case["U"])], points(case["P"], case["scalar"]))
     else:
         B = deepcopy(A)
+    if mode == "line_vs_kink":
+        # a lower-degree curve with a genuine kink / jump against a smooth curve raised by two or three degrees
+        U = nums(case["U"])
+        B = Curve([U[0]] * 2 + [U[-1]] * 2, points(case["P2"][:2], case["scalar"]))
+        B.degree_increase(case["which"] % 2 + 2)
     if mode in ("cross", "cross_other"):
         A.knot_insert(nums(case["ins2"]))
         B.knot_insert(nums(case["ins"]))
